@@ -533,6 +533,7 @@ def evaluate(cur, ops, obs):
         return {"what": "answer has %d tokens for %d ops" % (len(obs), len(ops)), "op_index": 0}
     pending = []
     tops, tobs, tidx = [], [], []
+    cut = False
     for i, (op, ob) in enumerate(zip(ops, obs)):
         if op[0] == "gs":
             _, F, p3, el = op
@@ -551,7 +552,8 @@ def evaluate(cur, ops, obs):
             tgt = (fn + AHEAD) % MAX_FN
             due = [e for e in pending if e[0] == tgt]
             if WRAP_KNOWN and fn + AHEAD >= MAX_FN and due:
-                return "known-wrap"
+                cut = True          # the history is judged up to here (the TDMA scheduler part below included)
+                break
             if ob[0] != "g":
                 return {"what": "unexpected answer to sched_gsmtime_execute", "op_index": i, "got": ob}
             _, rc, calls = ob
@@ -586,6 +588,8 @@ def evaluate(cur, ops, obs):
         res = dict(res)
         res["op_index"] = tidx[res.get("op_index", 0)] if tidx else 0
         res["what"] = "TDMA scheduler, with every hand-over of sched_gsmtime_execute as tdma_schedule_set(1, set, p3): " + res["what"]
+    if cut and not isinstance(res, dict):
+        return "known-wrap"
     return res
 
 
